@@ -143,7 +143,7 @@ def _config_call(fn, old_chunks, new_chunks, itemsize, threshold, block_size_lim
         return fn(old_chunks, new_chunks, itemsize, threshold, block_size_limit)
 
 
-@contract(f"{RC}::plan_rechunk", props=["C15", "C14"])
+@contract(f"{RC}::plan_rechunk", props=["C15"])
 class plan_rechunk:
     """a plan is a finite list of chunkings of the same shape ending in the new
     chunking; steps stay within the block-size budget (known finding F3 for the
